@@ -1,5 +1,5 @@
 CONSTANTS
-  Ctx <- QuickCtx
+  Ctx <- WeakCtx
   AddIds <- QuickIds
   BeginIds <- QuickBegin
   MaxList = 2
@@ -14,6 +14,7 @@ CONSTANTS
   Weak_NoReloadOnRestart = FALSE
   Weak_PendingSkipsExpiry = FALSE
   Weak_LateAddUnchecked = FALSE
+  Weak_ExpiryUsesStartupParams = FALSE
   Weak_BufferUsesCurrentValSet = TRUE
 INIT Init
 NEXT Next
